@@ -567,3 +567,106 @@ def run_containerof(prog, ctx=None):
                        f.qn, S.get("name"), k, R.get("name"), k), {"member": m, "offset": k})
             res.count("sites")
     return res
+
+
+def run_fieldnull(prog, ctx=None):
+    """FIELDNULL (Engler's contradiction, across the methods of one object): a pointer member that one method of an iterator
+    sets to null (the exhausted marker) or tests for null is not dereferenced, nor used in pointer arithmetic, by another method of
+    the same object without a null test of its own that excludes null on the way."""
+    res = Result("FIELDNULL")
+    files = set(ctx.get("files", [])) if ctx and ctx.get("files") else None
+    groups = {}
+    for g, u, rname, slot, fn, qn in vtables(prog):
+        if fn is None or fn.nocfg:
+            continue
+        if files and fn.file not in files:
+            continue
+        groups.setdefault(fn.file, {})[fn.key()] = fn
+    n = 0
+    for file, fns in sorted(groups.items()):
+        fns = sorted(fns.values(), key=lambda f: f.line)
+
+        def fields_of(e):
+            """(field name) for `x->F` where F is a pointer member"""
+            e = strip(e, all_casts=True)
+            if e.get("k") == "mem" and e.get("arrow"):
+                return e.get("f"), e.get("rec")
+            return None, None
+        setnull, tested = {}, {}
+        for f in fns:
+            for b, i, nn in f.walk_all():
+                if nn.get("k") == "bin" and nn.get("op") == "=" and cval(nn["b"]) == 0:
+                    l = strip(nn["a"], lvalue_to_rvalue=False)
+                    if l.get("k") == "mem" and l.get("arrow") and f.T(l.get("t")).get("k") == "ptr":
+                        setnull.setdefault((l.get("rec"), l["f"]), f.name)
+            for bid, blk in f.blocks.items():
+                t = blk.term
+                if t and isinstance(t.get("cond"), dict):
+                    c = strip(t["cond"], all_casts=True)
+                    while c.get("k") == "un" and c.get("op") == "!":
+                        c = strip(c["e"], all_casts=True)
+                    if c.get("k") == "mem" and c.get("arrow") and f.T(c.get("t")).get("k") == "ptr":
+                        tested.setdefault((c.get("rec"), c["f"]), set()).add(f.name)
+        # the marker idiom: one method stores null, at least two methods test for it
+        nullable = {k: "%s sets it to null and %s test it for null" % (setnull[k], ", ".join(sorted(tested[k])))
+                    for k in setnull if len(tested.get(k, ())) >= 2}
+        if not nullable:
+            continue
+        for f in fns:
+            dom = f.dominators()
+            # blocks reached only with F non-null: dominated by a test of F whose null edge does not lead there
+            def guarded(bid, rec, fld):
+                for d in dom[bid]:
+                    D = f.blocks[d]
+                    t = D.term
+                    if not (t and isinstance(t.get("cond"), dict) and len(D.succ) == 2):
+                        continue
+                    c = strip(t["cond"], all_casts=True)
+                    neg = False
+                    while c.get("k") == "un" and c.get("op") == "!":
+                        neg = not neg
+                        c = strip(c["e"], all_casts=True)
+                    if c.get("k") == "bin" and c.get("op") == "=":
+                        c = strip(c["a"], lvalue_to_rvalue=False)
+                    if not (c.get("k") == "mem" and c.get("f") == fld and c.get("rec") == rec):
+                        continue
+                    null_succ = D.succ[0] if neg else D.succ[1]
+                    if null_succ is None or (null_succ != bid and bid not in f.reachable_from(null_succ, avoid={d})):
+                        return True
+                return False
+            for b, i, e in f.elements():
+                for nn in walk_own(e):
+                    uses = []
+                    if nn.get("k") == "un" and nn.get("op") == "*":
+                        uses.append(nn["e"])
+                    elif nn.get("k") == "idx":
+                        uses.append(nn["a"])
+                    elif nn.get("k") == "bin" and nn.get("op") in ("+", "-") and f.T(nn["a"].get("t")).get("k") == "ptr":
+                        uses.append(nn["a"])
+                        if f.T(nn["b"].get("t")).get("k") == "ptr":
+                            uses.append(nn["b"])
+                    elif nn.get("k") == "bin" and nn.get("op") in ("+=", "-=") and f.T(nn["a"].get("t")).get("k") == "ptr":
+                        uses.append(nn["a"])
+                    for u_ in uses:
+                        us = strip(u_, all_casts=True)
+                        if us.get("k") == "mem" and us.get("arrow") and (us.get("rec"), us.get("f")) in nullable:
+                            ok = guarded(b.id, us.get("rec"), us["f"])
+                            if not ok:
+                                # set to something else on the way here (same block before, or a dominating block)
+                                prior = list(f.blocks[b.id].el[:i + 1])
+                                for dd in dom[b.id]:
+                                    if dd != b.id:
+                                        prior.extend(f.blocks[dd].el)
+                                for e2 in prior:
+                                    for m2 in walk_own(e2):
+                                        if m2.get("k") == "bin" and m2.get("op") == "=" and cval(m2["b"]) != 0:
+                                            l2 = strip(m2["a"], lvalue_to_rvalue=False)
+                                            if l2.get("k") == "mem" and l2.get("f") == us["f"] and l2.get("rec") == us.get("rec") and m2 is not nn:
+                                                ok = True
+                            n += 1
+                            res.ob("%s:%s:%s" % (f.qn, us["f"], norm(show(nn, f))[:40]), ok, f, nn.get("l", f.line),
+                                   "" if ok else "%s uses ->%s (%s) although %s, and no test in %s excludes null here" % (
+                                       f.qn, us["f"], norm(show(nn, f))[:40], nullable[(us.get("rec"), us["f"])], f.name))
+    if n < 3:
+        raise Broken("FIELDNULL: only %d uses of nullable pointer members in vtable methods" % n)
+    return res
